@@ -45,6 +45,11 @@ partial def jExpr (st : Strategy) (j : Json) : Except String Expr := do
     if h : a.size = 3 then return .bin (← jOp (← a[0].getStr?)) (← jExpr st a[1]) (← jExpr st a[2]) else throw "bin"
   else if let .ok p := j.getObjVal? "p" then
     return .paren (← jExpr st p)
+  else if let .ok f := j.getObjVal? "f" then
+    let args ← (← f.getArr?).toList.mapM fun x => do
+      let a ← x.getArr?
+      if h : a.size = 2 then pure ((← nm st a[0]), (← nm st a[1])) else throw "coalesce arg"
+    return .coalesce args
   else throw "expr"
 
 def jExprOpt (st : Strategy) (j : Json) : Except String (Option Expr) :=
@@ -57,6 +62,11 @@ def jSrc (st : Strategy) (j : Json) : Except String Src := do
   else
     return ⟨.scope (← (← j.getObjVal? "idx").getNat?) (← (← j.getObjVal? "derived").getBool?), alias⟩
 
+def jJoin (st : Strategy) (j : Json) : Except String Join := do
+  return { natural := ← (← j.getObjVal? "natural").getBool?,
+           usingCols := ← nms st (← j.getObjVal? "using"),
+           on := ← jExprOpt st (← j.getObjVal? "on") }
+
 def jProj (st : Strategy) (j : Json) : Except String Proj := do
   if let .ok s := j.getObjVal? "star" then
     return .star (← nmOpt st s) (← nms st (← j.getObjVal? "except"))
@@ -67,6 +77,7 @@ def jScope (st : Strategy) (j : Json) : Except String Scope := do
   return {
     outer := ← nms st (← j.getObjVal? "outer"),
     srcs := ← (← (← j.getObjVal? "srcs").getArr?).toList.mapM (jSrc st),
+    joins := ← (← (← j.getObjVal? "joins").getArr?).toList.mapM (jJoin st),
     projs := ← (← (← j.getObjVal? "projs").getArr?).toList.mapM (jProj st),
     whr := ← jExprOpt st (← j.getObjVal? "where"),
     group := ← (← (← j.getObjVal? "group").getArr?).toList.mapM (jExpr st),
@@ -83,6 +94,7 @@ def eJson : Expr → Json
   | .lit k => Json.mkObj [("l", .num k)]
   | .bin op l r => Json.mkObj [("b", .arr #[.str (opName op), eJson l, eJson r])]
   | .paren e => Json.mkObj [("p", eJson e)]
+  | .coalesce args => Json.mkObj [("f", .arr (args.map (fun a => Json.arr #[.str a.1, .str a.2])).toArray)]
 
 def eOptJson : Option Expr → Json
   | some e => eJson e
@@ -97,8 +109,12 @@ def projJson : Proj → Json
   | .star t exc => Json.mkObj [("star", oStr t), ("except", .arr (exc.map Json.str).toArray)]
   | .item e a => Json.mkObj [("e", eJson e), ("alias", oStr a)]
 
+def joinJson (j : Join) : Json :=
+  Json.mkObj [("natural", .bool j.natural), ("using", .arr (j.usingCols.map Json.str).toArray), ("on", eOptJson j.on)]
+
 def scopeJson (s : Scope) : Json :=
   Json.mkObj [
+    ("joins", .arr (s.joins.map joinJson).toArray),
     ("outer", .arr (s.outer.map Json.str).toArray),
     ("srcs", .arr (s.srcs.map srcJson).toArray),
     ("projs", .arr (s.projs.map projJson).toArray),
@@ -136,6 +152,18 @@ def handle (line : String) : Except String String := do
     let g (k : String) : Except String Bool := do (← j.getObjVal? k).getBool?
     return toString (canQuote (← g "quoted") (← g "func") (← g "cs") (← g "re")
       (← jIdentify (← (← j.getObjVal? "identify").getStr?)))
+  | "normt" =>
+    let st ← jStrat (← j.getObjVal? "st")
+    let b (k : String) : Except String Bool := do (← j.getObjVal? k).getBool?
+    let c : TableCtx := ⟨← b "udf", ← b "twd", ← b "qt", ← b "mc", ← b "tag"⟩
+    let i := normalizeT asciiFns (← b "ts") st c ⟨← (← j.getObjVal? "name").getStr?, ← b "quoted"⟩
+    return i.name ++ "\t" ++ toString i.quoted
+  | "defq" =>
+    let st ← jStrat (← j.getObjVal? "st")
+    let b (k : String) : Except String Bool := do (← j.getObjVal? k).getBool?
+    let i := defaultQualifier asciiFns (← b "ts") st SqlglotModel.Generated.C10.defaultQualifierTagFirst
+      ⟨← (← j.getObjVal? "name").getStr?, ← b "quoted"⟩
+    return i.name ++ "\t" ++ toString i.quoted
   | "qualify" =>
     let st ← jStrat (← j.getObjVal? "st")
     let σ ← (← (← j.getObjVal? "schema").getArr?).toList.mapM fun e => do
